@@ -2,7 +2,7 @@
 # semantics-preserving changes: the named checks must stay quiet (exit 0) with each applied
 cd /verif
 export VERIF_EVIDENCE_DIR=/tmp/verif_sweep/evidence VERIF_REPLAY_OUT=/tmp/verif_sweep/replay; mkdir -p $VERIF_EVIDENCE_DIR $VERIF_REPLAY_OUT
-declare -A OWN=( [R01]="C14" [R02]="C14" [R03]="C15 C13" [R04]="C13" [R05]="C17 C08" [R06]="C10 C05" [R07]="C01 C03 C18" [R08]="C14 C18" [R09]="C12 C06" [R10]="C19 C01" [R11]="C18 C05" [R12]="C16 C05" )
+declare -A OWN=( [R01]="C14" [R02]="C14" [R03]="C15 C13" [R04]="C13" [R05]="C17 C08" [R06]="C10 C05" [R07]="C01 C03 C18" [R08]="C14 C18" [R09]="C12 C06" [R10]="C19 C01" [R11]="C18 C05" [R12]="C16 C05" [R13]="C01" [R14]="C19 C09" )
 for f in refactors/*.diff; do
   r=$(basename $f | cut -c1-3)
   git -C /repo apply /verif/$f || { echo "$r: does not apply"; continue; }
